@@ -41,7 +41,7 @@ def handler_closure(ctx):
     table, rows = handler_table(ctx)
     roots = [f.qual for _, _, f, _ in rows if f is not None]
     clo = cg.closure(roots)
-    return [q for q in sorted(clo) if q.startswith(K.PROTO + ".")], rows
+    return [q for q in sorted(clo) if q in ctx.repo.funcs], rows
 
 
 def name_sinks(fnode):
@@ -708,6 +708,28 @@ def run(ctx, rep):
                "`%s`" % A.norm(a) if fresh else
                "`%s` shares the dictionary between connections: a classic-mode connection's blanket permissions (or any "
                "per-connection override) apply to every other connection" % A.norm(a), ctx.loc(a))
+    # after the caller's overrides are applied, __init__ may only fill in the connection id
+    stores_ = []
+    for n in A.walk(init.node):
+        if isinstance(n, ast.Subscript) and isinstance(n.ctx, (ast.Store, ast.Del)):
+            base = n.value
+            basev = K.init_field_ctor(ctx, K.CONN, "_config")
+            is_cfg = K.self_attr(base, "_config") is not None
+            if isinstance(base, ast.Name):
+                # a local alias of the fresh copy
+                defs_ = [x for x in A.walk(init.node) if isinstance(x, ast.Assign) and any(
+                    isinstance(t, ast.Name) and t.id == base.id for t in x.targets)]
+                aliased = [x for x in A.walk(init.node) if isinstance(x, ast.Assign) and any(K.self_attr(t, "_config") for t in x.targets)
+                           and isinstance(x.value, ast.Name) and x.value.id == base.id]
+                is_cfg = bool(aliased)
+            if is_cfg:
+                stores_.append(n)
+    bad_st = [n for n in stores_ if ctx.try_fold(n.slice) != "connid"]
+    rep.ob("R06.7", "Connection.__init__: no policy key of the configuration is overwritten after the caller's overrides", not bad_st,
+           "only 'connid' is filled in" if not bad_st else
+           "`%s` is stored after the caller's configuration was applied: the connection's own setting for that key is ignored (a "
+           "narrowed list is widened back, a widened one refused)" % A.norm(getattr(bad_st[0], "_parent", bad_st[0]))[:70],
+           ctx.loc(bad_st[0]) if bad_st else init.loc, kind="site")
     # (b) who-may-write DEFAULT_CONFIG and shared mutable values
     MUT = {"update", "setdefault", "pop", "popitem", "clear", "__setitem__", "__delitem__", "add", "discard", "remove",
            "append", "extend", "insert", "difference_update", "intersection_update", "symmetric_difference_update"}
